@@ -7,4 +7,4 @@ LIST=${*:-$(ls seeded)}
 for d in $LIST; do
   ch=$(/venv/bin/python -c "import json,sys; m=json.load(open('seeded/$d/meta.json')); print(','.join(m.get('verification',{}).get('caught_by_current_checks') or []))")
   [ -n "$ch" ] && echo "$d $ch"
-done | xargs -P 3 -L 1 sh -c 'out=$(tools/mutate.py --cy seeded/$0/patch.diff $1 2>&1 | cut -c1-200); echo "$out" | grep -q "MISSED\|ERROR" && echo "REGRESSION $0: $out" || echo "ok $0"'
+done | xargs -P 3 -L 1 sh -c 'P=seeded/$0/patch.diff; [ -f seeded/$0/patch.rebased.diff ] && P=seeded/$0/patch.rebased.diff; out=$(tools/mutate.py --cy $P $1 2>&1 | cut -c1-200); echo "$out" | grep -q "MISSED\|ERROR" && echo "REGRESSION $0: $out" || echo "ok $0"'
